@@ -432,6 +432,7 @@ def derive(o, exceptions):
             return unc(o, 'stride parameter %s is bound to operand %s whose carrier is %s' % (p['text'], tgt, t['carrier']))
         t['carrier'] = 'arr_idx' if p['pt'] == 'uarr' else 'arr_stride'
         t['sparam'] = p['name']
+        t['sbits'] = 32 if p['norm'].startswith('u32') else 64
         roles[j] = ({'r': 0, 'a': 1, 'b': 2}[tgt], 'idx' if p['pt'] == 'uarr' else 'stride')
         # evidence from the body (never used to build the spec): how is the scalar used?
         if p['pt'] == 'u':
